@@ -179,10 +179,13 @@ example : (1 ≤ 7 ∧ 7 ≤ 2 ^ 64) ∧ ∃ g, 2 ≤ g ∧ g < 7 + 2 ∧ g < 2 
 
 /-- THE TIE: for an odd prime `p` with `p - 1 < 2^32` (Go's `Define` accepts exactly these; `p = 2` is
     the case `MultGenerator` treats before the loop) the translated search returns the model's
-    `Prime.multGenerator p`, without panic, whatever the nil word is -/
+    `Prime.multGenerator p`, without panic, whatever the nil word is.  (The observations are passed BY
+    NAME: the parameter names carry the Go method names `element`, `IsOne`, `Card`, `Pow`, so calling a
+    different method in the Go source breaks this statement.) -/
 theorem multGenerator_tie {p : Nat} (nilE : Nat) (hp : p.Prime) (h32 : p - 1 < 2 ^ 32) (hp2 : p ≠ 2) :
-    go_primefield_Field_MultGenerator_core nilE (Prime.element p) (fun x => x == 1) p (Prime.pow p)
-        (go_auxmath_Factorize loopFuel (wsub p 1)).1
+    go_primefield_Field_MultGenerator_core (nil_Element := nilE) (f_element := Prime.element p)
+        (method_IsOne := fun x => x == 1) (f_Card := p) (method_Pow := Prime.pow p)
+        (factors := (go_auxmath_Factorize loopFuel (wsub p 1)).1)
       = some (Prime.multGenerator p) :=
   CodeTies5Proofs.Gen.multGenerator_tie nilE hp h32 hp2
 
